@@ -1,3 +1,3 @@
--- This module serves as the root of the `Shp` library.
--- Import modules here that should be built as part of the library.
-import Shp.Basic
+-- Root of the `Shp` library: everything that must build.
+import Shp.Model.Reader
+import Shp.Props.C19
